@@ -74,6 +74,7 @@ class St:
         self.nul = {}          # region -> list of Lin offsets known to hold '\0'
         self.ftypes = {}       # (obj, field) -> declared type (for re-creating havocked fields)
         self.cells = {}        # (region, offset key) -> stored value (pointers kept in arrays)
+        self.wraps = []        # descriptions of unsigned wrap-arounds taken on this path
         self.status = 'normal'
         self.ret = None
         self.trail = []        # human readable branch decisions
@@ -87,6 +88,7 @@ class St:
         s.nul = {k: list(v) for k, v in self.nul.items()}
         s.ftypes = dict(self.ftypes)
         s.cells = dict(self.cells)
+        s.wraps = list(self.wraps)
         s.status = self.status
         s.ret = self.ret
         s.trail = list(self.trail)
@@ -259,6 +261,42 @@ class Engine:
                 return r
             return self.wrap_sym(st, op, a, b, t)
         return r
+
+    def arith_split(self, st, op, a, b, t, node=None, func=None, what=None):
+        """a op b in type t with EXACT modular semantics for unsigned + and -: when the absence of
+        wrap-around is not entailed the state is split into the non-wrapping case (linear result)
+        and the wrapping case (linear result +/- 2^N); the wrapping state is marked"""
+        bt = btype(t)
+        if op in ('+', '-') and isinstance(a, Lin) and isinstance(b, Lin) and bt in UBITS and UBITS[bt] >= 8:
+            n = UBITS[bt]
+            r = a + b if op == '+' else a - b
+            mx = (1 << n) - 1
+            lo_ok = entails(st.cons, ge(r, 0))
+            hi_ok = entails(st.cons, le(r, mx))
+            if lo_ok and hi_ok:
+                return [(r, st)]
+            out = []
+            ok = st.copy()
+            ok.assume(ge(r, 0), le(r, mx))
+            if ok.ok():
+                out.append((r, ok))
+            desc = '%s: %r %s %r wraps' % (func.loc(node) if (func is not None and node is not None) else '?', a, op, b)
+            if not lo_ok:
+                w = st.copy()
+                w.assume(le(r, -1))
+                if w.ok():
+                    w.wraps.append((what or '', desc))
+                    w.trail.append('WRAP %r %s %r < 0' % (a, op, b))
+                    out.append((r + (1 << n), w))
+            if not hi_ok:
+                w = st.copy()
+                w.assume(ge(r, mx + 1))
+                if w.ok():
+                    w.wraps.append((what or '', desc))
+                    w.trail.append('WRAP %r %s %r > max' % (a, op, b))
+                    out.append((r - (1 << n), w))
+            return out
+        return [(self.arith(st, op, a, b, t, node, func), st)]
 
     def convert_split(self, st, v, t, from_t=None):
         """integral conversion that may split the state on the sign of the source value:
@@ -578,7 +616,12 @@ class Engine:
                 if isinstance(old, Ptr):
                     new = Ptr(old.region, old.off + (1 if op == '++' else -1))
                 elif isinstance(old, Lin):
-                    new = self.arith(s1, '+' if op == '++' else '-', old, lin(1), t, n, func)
+                    vname = strip_all_casts(sub).get('ref', {}).get('name', '?')
+                    for new, s2 in self.arith_split(s1, '+' if op == '++' else '-', old, lin(1), t, n, func,
+                                                    what='var:' + vname):
+                        self.store(lv, new, s2, n, func)
+                        res.append((old if n.get('postfix') else new, s2))
+                    continue
                 else:
                     new = old
                 self.store(lv, new, s1, n, func)
@@ -640,9 +683,11 @@ class Engine:
             for v, s1 in self.ev(b, st, func):
                 for lv, s2 in self.lvalue(a, s1, func):
                     old = self.load(lv, s2, a, func, a.get('t'))
-                    new = self.arith(s2, op[:-1], old, v, a.get('t') or t, n, func)
-                    self.store(lv, new, s2, n, func)
-                    res.append((new, s2))
+                    vname = strip_all_casts(a).get('ref', {}).get('name', '?')
+                    for new, s3 in self.arith_split(s2, op[:-1], old, v, a.get('t') or t, n, func,
+                                                    what='var:' + vname):
+                        self.store(lv, new, s3, n, func)
+                        res.append((new, s3))
             return res
         res = []
         for x, s1 in self.ev(a, st, func):
@@ -654,7 +699,7 @@ class Engine:
                     if f is not None and isinstance(xi, Lin):
                         res.append((('float_mul', xi, f), s2))
                         continue
-                res.append((self.arith(s2, op, x, y, t, n, func), s2))
+                res.extend(self.arith_split(s2, op, x, y, t, n, func))
         return res
 
     # ------------------------------------------------------------------ conditions
@@ -1356,8 +1401,16 @@ class Engine:
         else:   # CXXForRangeStmt: [range, loopvar decl, body]
             body = kids[2]
         cur = states
+        wraps_before = {id(s0): len(s0.wraps) for s0 in states}
+        init_wrapped = {}
         if init is not None:
-            cur = self.stmt(init, cur, func)
+            marks = [(s0, len(s0.wraps)) for s0 in cur]
+            nxt = []
+            for s0, m0 in marks:
+                for r0 in self.stmt(init, [s0], func):
+                    init_wrapped[id(r0)] = r0.wraps[m0:]
+                    nxt.append(r0)
+            cur = nxt
         out = []
         vars_, fields, havoc_this, incs, decs = self.modified_in([cond, inc, body], func)
         peel = self.cfg.get('peel_loops', False) or k == 'DoStmt'
@@ -1369,6 +1422,7 @@ class Engine:
                     val = s0.vars.get(v)
                     if isinstance(val, Lin):
                         w = [str(x) for x in val.syms() if str(x).startswith('wrap<')]
+                        w += [d for _, d in init_wrapped.get(id(s0), [])]
                         self.obligations.append(Obligation(
                             self.root, 'wrap', 'start value of loop variable %s is not a wrapped unsigned expression' % v,
                             not w, func.loc(n), '' if not w else '%s on the path [%s]' % (w[0], '; '.join(s0.trail[-6:]))))
@@ -1447,6 +1501,7 @@ class Engine:
             if s.status != 'normal':
                 out.append(s)
                 continue
+            base_wraps = len(s.wraps)
             # class invariants must hold on entry
             self.check_invariants(s, func, n, 'on loop entry')
             first_after = []
@@ -1558,7 +1613,8 @@ class Engine:
                         self.oblige(a, goals, 'invariant', '%s is preserved by one loop iteration' % desc, n, func)
                     for v, direction, _old in mono:
                         nv = self.vv(a, v, func, n)
-                        wrapped = isinstance(nv, Lin) and any(str(x).startswith('wrap<') for x in nv.syms())
+                        wrapped = (isinstance(nv, Lin) and any(str(x).startswith('wrap<') for x in nv.syms())) or \
+                            any(w[0] == 'var:' + v for w in a.wraps[base_wraps:])
                         self.obligations.append(Obligation(
                             self.root, 'wrap', 'loop counter %s does not wrap around' % v, not wrapped,
                             func.loc(n), '' if not wrapped else
